@@ -98,12 +98,13 @@ class Tree:
         self.tagged = {k: unjson(v) for k, v in t["tagged"].items()}
         self.subs = {k: sorted(unjson(v) or []) for k, v in t["subs"].items()}
         self.unchecked = set(t["unchecked"])
+        self.mapunchecked = set(t["mapunchecked"])
         self.nodeseq = t["nodeseq"]
         self.configured = sorted(n for n, r in self.nodes.items() if r["kind"] == "pkg")
-        self.parent_pkg = {}
-        for p, ss in self.subs.items():
-            for s in ss:
-                self.parent_pkg[s] = p
+        self.parent_pkg = {}          # directory parent: the deepest package that has s below it
+        for s in {x for ss in self.subs.values() for x in ss}:
+            above = [p for p, ss in self.subs.items() if s in ss]
+            self.parent_pkg[s] = next(p for p in above if all(q == p or p in self.subs.get(q, []) for q in above))
 
     def pkg_dir(self, g):
         return (self.pkg_dir(self.parent_pkg[g]) + "/" + g) if g in self.parent_pkg else g
@@ -313,7 +314,7 @@ def expected_mock(T, W, m, profile):
     for pk, inner in unjson(e["replace-type"]["kv"]).items():
         for tn, leaf in unjson(inner["kv"]).items():
             rt[(pk, tn)] = "R_" + leaf["v"]
-    return {"iface": nm, "pkg": g, "from": m["from"], "how": m["how"], "check": m["check"],
+    return {"iface": nm, "pkg": g, "from": m["from"], "how": m["how"], "check": m["check"], "mapcheck": m.get("mapcheck", True),
             "path": os.path.normpath(f"{cdir}/{cfile}"),
             "pkgname": g if e["pkgname"] == DEFAULT else "k_" + e["pkgname"].lower(),
             "struct": "Mock" + nm if e["structname"] == DEFAULT else f"S_{e['structname']}_{nm}",
@@ -608,6 +609,11 @@ def mock_diffs(inst, e, o):
         out.append(("template", e, e["template"], f["template"]))
     if o["types"] is None:
         raise MachineryError(f"no method signature found for {e['iface']} in {o['rel']}")
+    if not e["mapcheck"]:
+        # listed below a recursive package / discovered below such a package: scalar parameters only (see MapUnchecked)
+        if f["kind"] == "probe" and e["formatter"] != f["formatter"]:
+            out.append(("formatter", e, e["formatter"], f["formatter"]))
+        return out
     if e["types"] != o["types"]:
         out.append(("replace-type", e, e["types"], o["types"]))
     if f["kind"] == "probe":
@@ -722,7 +728,7 @@ def run_world_once(ctx, T, case, idx, quick):
     if ok and not J.bad and case["desc"].get("param", "").startswith("template-data@"):
         for m in mocks:
             o = obs.get(inst.rel(m))
-            if o is None or o["kind"] != "builtin" or len(o["mocks"]) != 1:
+            if o is None or o["kind"] != "builtin" or len(o["mocks"]) != 1 or not m["mapcheck"]:
                 continue
             key = json.dumps([m["template"], m["iface"], m["struct"], m["pkgname"], m["types"], m["formatter"],
                               os.path.dirname(inst.rel(m)).startswith("out/"), m["filedata"].get("mock-build-tags"),
@@ -1103,6 +1109,10 @@ def vacuity(T, cases, stats):
     if not any(p in unjson(c["cfg"].get(n, {})) for c in chain for n in ("p1A", "p1B1", "p2A")
                for p in ("all", "recursive", "exclude-subpkg-regex", "include-interface-regex")):
         raise MachineryError("vacuous: no world writes a per-package parameter on an interface / configs entry")
+    nested = [c for c in chain for m in c["mocks"] if m["pkg"] == "p1rd" and m["from"] == "p1r"
+              and c["desc"]["param"] in unjson(c["cfg"].get("p1", {}))]
+    if len(nested) < 20 or not any(c["desc"]["param"] in unjson(c["cfg"].get("p1r", {})) for c in nested):
+        raise MachineryError("vacuous: no world discovers a package below the nested recursive package while the outer one sets the focus parameter")
     if len(packed) < 8:
         raise MachineryError(f"vacuous: only {len(packed)} packed worlds are well-formed")
     if not any(m["how"] == "subpkg" for c in cases for m in c["mocks"]) or not any(m["how"] == "unlisted" for c in cases for m in c["mocks"]):
